@@ -83,7 +83,7 @@ def run(placed, settings, name, depth=2, want_str=False, limit=600, use_cache=Tr
     """placed: list of dicts(id, doc, target). Returns list of WireCase (same order).
     extra_probes(case, traits) -> list of (kind, arg) additional probes for the target type (C11)."""
     ensure_dir(os.path.join(WORK, "cache"))
-    ck = key_of([tree_state(), code_state(), [(p["id"], p["doc"], p["target"], p.get("settings"), p.get("ops")) for p in placed], settings, depth, want_str, limit, mode, name, keep_scan,
+    ck = key_of([tree_state(), code_state(), [(p["id"], p["doc"], p["target"], p.get("settings"), p.get("ops"), p.get("depth")) for p in placed], settings, depth, want_str, limit, mode, name, keep_scan,
                  "v5", instances, extra_probes.__name__ if extra_probes else None,
                  (decorate.__module__ + "." + decorate.__name__) if decorate else None, keep_api, need_target, keep_pretty])
     cpath = os.path.join(WORK, "cache", "wire_%s.pkl" % ck)
@@ -195,7 +195,7 @@ def run(placed, settings, name, depth=2, want_str=False, limit=600, use_cache=Tr
                 probes.append((wc.key, wc.ident, "de", json.dumps(v)))
                 index.append((rec, "de"))
             continue
-        univ, trunc = universe.universe(doc, wc.placed["target"], depth=depth, limit=limit)
+        univ, trunc = universe.universe(doc, wc.placed["target"], depth=max(depth, wc.placed.get("depth") or 0), limit=limit)   # a shape may ask for a deeper universe than the tier's
         wc.truncated = trunc
         orc = oracle.Oracle(doc if wc.placed["target"] is None else doc, clip_i64=clip_i64)
         for (v, flags) in univ:
